@@ -237,8 +237,16 @@ Bcast(t, rec) ==
        ELSE /\ IF t \in DOMAIN txs THEN ~txs[t].ok /\ txs[t].old ELSE TRUE
             /\ txs' = [x \in DOMAIN txs \cup {t} |-> IF x = t THEN [rec EXCEPT !.onrb = (rec.by = rb.n)] ELSE txs[x]]
             /\ rec.by \in par.live =>
-                 \* OnlyValidFinal
+                 \* OnlyValidFinal (the inputs exist: on the best chain, or in unconfirmed ancestors that can still
+                 \* confirm -- not in a transaction that lost an input to a confirmed competitor)
                  /\ G7(rec.valid /\ rec.final) /\ G6(rec.valid /\ rec.final)
+                 \* (a competitor confirmed in the newest block does not count yet: with some delivery styles the
+                 \*  node announces the new tip before the block's transactions, and requests made in between are
+                 \*  answered by the application a moment later)
+                 /\ LET Exists == \A k \in 1..Len(rec.ins) :
+                                    (rec.ins[k][1] \in DOMAIN txs /\ ~Confirmed(rec.ins[k][1]))
+                                       => \A oo \in Ins(rec.ins[k][1]) : Spent(oo) => conf[SpenderOf(oo)] >= height
+                    IN G7(Exists) /\ G6(Exists)
                  \* FeeMonotone: a re-issued claim of the same outpoints never pays a lower feerate
                  \* (a transaction that re-spends an output which already has a confirmed spend is not a
                  \*  re-issue of a pending claim; such stale broadcasts are counted, not judged -- see report)
@@ -273,8 +281,11 @@ Bump(n, c, target, ops) ==
   /\ rb' = IF n = rb.n THEN [rb EXCEPT !.cov = @ \cup ops] ELSE rb
   /\ UNCHANGED <<par, height, txs, conf, com, known, handed, bal, starved, est, gaveup>>
 
+\* (after a reorganisation took the commitment out of the chain a different, competing commitment
+\*  transaction may confirm in its place; from then on the obligations are about that one)
 Commit(c) ==
-  /\ ~HasCom /\ com' = c /\ phase' = "op"
+  /\ IF HasCom THEN com.gone /\ c.tx # com.tx ELSE TRUE
+  /\ com' = c /\ phase' = "op"
   /\ known' = c.known
   /\ UNCHANGED <<par, height, txs, conf, handed, bal, starved, asked, est, gaveup>> /\ rb' = NoRb
 
